@@ -113,7 +113,14 @@ def unit_sweep_range_text():
                 yield [(None, 10, False), (0x41, 0x5a, False)], "%sLF,0x41%s0x5A" % (sep, sep)
                 yield [(8230, 8230, True)], "'…'"
                 yield [(8230, 8231, False)], "\"…\"%s8231" % sep
-        res.append(sweep("C01/sweep/quoted characters and symbolic names", char_cases(), lambda c: check_range_description(c, [8, 9, 10, 11, 12, 13, 14, 64, 65, 90, 91, 96, 97, 98, 99, 100, 8229, 8230, 8231, 8232]), "bounded",
+                # a quote character written with a backslash inside quotes of the same kind is still one quoted character: what follows it is outside the quotes
+                yield [(39, 97, False)], "'\\''%s'a'" % sep
+                yield [(34, 97, False)], "\"\\\"\"%s\"a\"" % sep
+                yield [(39, 39, True), (8230, None, False)], "'\\'', '…'%s" % sep
+                yield [(34, 34, True), (8230, 8230, True), (8232, None, False)], "\"\\\"\", \"…\", 8232%s" % sep
+                yield [(92, 92, True), (97, 99, False)], "'\\\\', 'a'%s'c'" % sep
+                yield [(39, 39, True), (92, 92, True), (97, None, False)], "'\\'', '\\\\', 'a'%s" % sep
+        res.append(sweep("C01/sweep/quoted characters and symbolic names", char_cases(), lambda c: check_range_description(c, [8, 9, 10, 11, 12, 13, 14, 33, 34, 35, 38, 39, 40, 57, 58, 59, 64, 65, 90, 91, 92, 93, 96, 97, 98, 99, 100, 8229, 8230, 8231, 8232, 8233]), "bounded",
                          "hand-listed descriptions with quoted characters, symbolic names (any case), hex limits x 3 separators", function="ranges.Range.__init__", unit="C01.sweep.range-text"))
         if ctx.thorough:
             rng = random.Random(ctx.seed)
